@@ -639,3 +639,90 @@ Print Assumptions C11_src_getstate_is_model.
 Print Assumptions C11_src_setstate_is_model.
 Print Assumptions C11_src_unpickle_is_model.
 Print Assumptions C11_src_getstate_mro_is_model.
+
+(* ---- generated layer, round 4: the collection wrappers' __deepcopy__ re-translated from the source (Gen/AliasSrc.v) equals the wrapper branch of the hand model's dc (Struct/CopyHeap.v) ---- *)
+From TP Require Import Base.PyOpsAlias Gen.AliasSrc Struct.AliasSrcProofs.
+
+Theorem C11_src_list_deepcopy :
+  forall (E : aenv) (rec : CopyHeap.heap -> child -> res (CopyHeap.heap * child))
+           (fimm : bool) (ib : ibind) (nm : aval) (l : loc) (h : CopyHeap.heap) 
+           (o : obj) (m : list (loc * aval)) (ib' : ibind),
+         get h l = Some o ->
+         o_kind o = KWList ->
+         rebind m ib = inst_of ib' ->
+         (r <~ Src_ListStruct_deepcopy E rec (wview (AV (CRef l)) fimm ib nm) (AMemo m);;
+          a_to_child r) h =
+         deepcopy_wrapper_spec KWList rec (simm fimm ib) (simm fimm ib') h (o_kids o).
+Proof. exact src_list_deepcopy. Qed.
+
+Theorem C11_src_deque_deepcopy :
+  forall (E : aenv) (rec : CopyHeap.heap -> child -> res (CopyHeap.heap * child))
+           (fimm : bool) (ib : ibind) (nm : aval) (l : loc) (h : CopyHeap.heap) 
+           (o : obj) (m : list (loc * aval)) (ib' : ibind),
+         defaults_ok E = true ->
+         simm fimm ib = false ->
+         get h l = Some o ->
+         o_kind o = KWDeque ->
+         rebind m ib = inst_of ib' ->
+         (r <~ Src_DequeStruct_deepcopy E rec (wview (AV (CRef l)) fimm ib nm) (AMemo m);;
+          a_to_child r) h = deepcopy_wrapper_spec KWDeque rec false (simm fimm ib') h (o_kids o).
+Proof. exact src_deque_deepcopy. Qed.
+
+Theorem C11_src_dict_deepcopy :
+  forall (tb : loc -> wbind) (ia : loc -> pystr -> option pyval) (df : pystr -> option pyval)
+           (rec : CopyHeap.heap -> child -> res (CopyHeap.heap * child)) 
+           (fimm : bool) (ib : ibind) (nm : aval) (l : loc) (h : CopyHeap.heap) 
+           (o : obj) (ps : list (child * child)) (m : list (loc * aval)) 
+           (ib' : ibind),
+         simm fimm ib = false ->
+         simm fimm ib' = false ->
+         get h l = Some o ->
+         o_kind o = KWDict ->
+         kid_pairs (o_kids o) = Some ps ->
+         rebind m ib = inst_of ib' ->
+         (r <~
+          Src_DictStruct_deepcopy (env_of (fun l0 : loc => Some (tb l0)) ia df) rec
+            (wview (AV (CRef l)) fimm ib nm) (AMemo m);; a_to_child r) h =
+         deepcopy_wrapper_spec KWDict rec false false h (o_kids o).
+Proof. exact src_dict_deepcopy. Qed.
+
+(* for every heap, wrapper and recursive copier agreeing with dc at lower fuel *)
+Theorem C11_src_wrapper_deepcopy_is_dc :
+  forall (pol : copy_policy) (f : nat) (tb : loc -> wbind) (ia : loc -> pystr -> option pyval)
+           (df : pystr -> option pyval) (rec : CopyHeap.heap -> child -> res (CopyHeap.heap * child))
+           (h : CopyHeap.heap) (l : loc) (o : obj),
+         (forall l' : loc, simm (wb_fimm (tb l')) (wb_inst (tb l')) = false) ->
+         defaults_ok (env_of (fun l0 : loc => Some (tb l0)) ia df) = true ->
+         get h l = Some o ->
+         is_wrapper (o_kind o) = true ->
+         labels_emptyb (o_kids o) = true ->
+         (o_kind o = KWDict -> exists ps : list (child * child), kid_pairs (o_kids o) = Some ps) ->
+         cp_wlist pol = Deep ->
+         cp_wdeque pol = Deep ->
+         cp_wdict pol = Deep ->
+         (forall (h0 : CopyHeap.heap) (c : child), ro (rec h0 c) = dc pol f h0 c) ->
+         ro (Src_wrapper_deepcopy (env_of (fun l0 : loc => Some (tb l0)) ia df) (AMemo []) rec l h) =
+         dc pol (S f) h (CRef l).
+Proof. exact src_wrapper_deepcopy_is_dc. Qed.
+
+(* at the copy policy regenerated from today's source *)
+Theorem C11_src_wrapper_deepcopy_is_dc_today :
+  forall (f : nat) (tb : loc -> wbind) (ia : loc -> pystr -> option pyval)
+           (df : pystr -> option pyval) (rec : CopyHeap.heap -> child -> res (CopyHeap.heap * child))
+           (h : CopyHeap.heap) (l : loc) (o : obj),
+         (forall l' : loc, simm (wb_fimm (tb l')) (wb_inst (tb l')) = false) ->
+         defaults_ok (env_of (fun l0 : loc => Some (tb l0)) ia df) = true ->
+         get h l = Some o ->
+         is_wrapper (o_kind o) = true ->
+         labels_emptyb (o_kids o) = true ->
+         (o_kind o = KWDict -> exists ps : list (child * child), kid_pairs (o_kids o) = Some ps) ->
+         (forall (h0 : CopyHeap.heap) (c : child), ro (rec h0 c) = dc copy_sites f h0 c) ->
+         ro (Src_wrapper_deepcopy (env_of (fun l0 : loc => Some (tb l0)) ia df) (AMemo []) rec l h) =
+         dc copy_sites (S f) h (CRef l).
+Proof. exact src_wrapper_deepcopy_is_dc_today. Qed.
+
+Print Assumptions C11_src_list_deepcopy.
+Print Assumptions C11_src_deque_deepcopy.
+Print Assumptions C11_src_dict_deepcopy.
+Print Assumptions C11_src_wrapper_deepcopy_is_dc.
+Print Assumptions C11_src_wrapper_deepcopy_is_dc_today.
